@@ -93,7 +93,7 @@ def run(prop, tier, seed, replay=None):
         "evaluations": pairs + len(B) * len(tables["cards"]) + len(L),
         "distinct_nontrivial": len(A) + len(B),
         "rule": "table A: every text-match (4 match types x 3 collations x negate x all needles up to length 2 over "
-                "a 5-letter alphabet with case pairs and non-ASCII letters) against every value (length <= %d); "
+                "a 6-letter alphabet with case pairs, non-ASCII letters and the blank; needles may begin or end with a blank) against every value (length <= %d); "
                 "table B: %d filter structures (anyof/allof, is-not-defined, param-filter, several text-matches, "
                 "multi-instance properties) x 5 cards; limit 0/1/2/10 for each; evaluations counts (filter, card) "
                 "pairs, distinct counts distinct queries" % (2 if quick else 3, len(tables["b"])),
